@@ -1163,3 +1163,46 @@ func CallComponent(v ssa.Value, call *ssa.Call) (int, bool) {
 	}
 	return 0, false
 }
+
+
+// GuardedArrivals: the ways an interesting value can become result idx of return r — directly, or through φ-nodes
+// of a merged return (named results, `return x` at the end) — each lie behind a pass edge: for a φ-edge, that edge
+// itself is a pass edge or every path to its predecessor crosses one. It returns the number of interesting
+// arrivals and, if one is unguarded, a description.
+func GuardedArrivals(fn *ssa.Function, r *ssa.Return, idx int, interesting func(ssa.Value) bool, pass []Edge, nr NoReturn) (n int, ok bool, where string) {
+	ok = true
+	if idx >= len(r.Results) {
+		return 0, true, ""
+	}
+	passSet := EdgeSet(pass)
+	var visit func(v ssa.Value, guard func() (bool, string), d int)
+	visit = func(v ssa.Value, guard func() (bool, string), d int) {
+		if ph, isPhi := v.(*ssa.Phi); isPhi && d < 5 {
+			for i, e := range ph.Edges {
+				if i >= len(ph.Block().Preds) {
+					continue
+				}
+				pb := ph.Block().Preds[i]
+				blk := ph.Block()
+				visit(e, func() (bool, string) {
+					for si, sb := range pb.Succs {
+						if sb == blk && passSet[Edge{pb, si}] {
+							return true, ""
+						}
+					}
+					return Guarded(fn.Blocks[0], lastInstr(pb), pass, nr)
+				}, d+1)
+			}
+			return
+		}
+		if !interesting(v) {
+			return
+		}
+		n++
+		if g, w := guard(); !g {
+			ok, where = false, w
+		}
+	}
+	visit(r.Results[idx], func() (bool, string) { return Guarded(fn.Blocks[0], r, pass, nr) }, 0)
+	return n, ok, where
+}
